@@ -33,8 +33,10 @@ class Family:
             self.keys, self.init = ["x"], {"x": jnp.array([0.2, -0.4, 0.1], jnp.float32)}
         elif name in ("poisson", "poisson_userchol"):
             self.keys, self.init = ["z"], {"z": jnp.array(0.3, jnp.float32)}
-        elif name == "product":
-            self.keys, self.init = ["x", "z"], {"x": jnp.array([0.2, -0.4], jnp.float32), "z": jnp.array(0.3, jnp.float32)}
+        elif name in ("product", "product_rev"):
+            # product_rev: the position keys are listed in non-alphabetical order (the flat layout is the sorted one)
+            self.keys = ["x", "z"] if name == "product" else ["z", "x"]
+            self.init = {"x": jnp.array([0.2, -0.4], jnp.float32), "z": jnp.array(0.3, jnp.float32)}
         elif name == "gauss2_userchol":
             self.keys, self.init = ["x"], {"x": jnp.array([0.2, -0.4], jnp.float32)}
         elif name == "gamma_mh":
@@ -50,7 +52,7 @@ class Family:
 
     # jax log density over the model state (dict)
     def logp(self, s):
-        n = self.name
+        n = "product" if self.name == "product_rev" else self.name
         if n == "gauss1":
             return -0.5 * 1.7 * jnp.sum((s["x"] - 0.4) ** 2)
         if n in ("gauss2", "gauss2_userchol"):
@@ -88,7 +90,7 @@ class Family:
     # float64 analytic leaves on the flat block
     def leaves(self, f, ctx=None):
         f = np.asarray(f, np.float64)
-        n = self.name
+        n = "product" if self.name == "product_rev" else self.name
         if n == "coupled":
             ls = float(ctx[0])
             r = YC - XC @ f
@@ -220,12 +222,15 @@ def run(kernel="iwls", family="gauss2", step=0.7, chains=2, seed=0, n_iter=40):
 
 def jobs(quick=True):
     js = []
-    fams_iwls = ["gauss2", "poisson", "product", "poisson_userchol", "gauss2_userchol", "coupled"] + ([] if quick else ["gauss1", "gauss3"])
+    fams_iwls = ["gauss2", "poisson", "product", "product_rev", "poisson_userchol", "gauss2_userchol", "coupled"] + ([] if quick else ["gauss1", "gauss3"])
     steps = [0.7] if quick else [0.1, 0.7, 1.5]
     for f in fams_iwls:
         for s in steps:
             js.append(dict(kernel="iwls", family=f, step=s, seed=len(js)))
-    for f in (["gauss2", "poisson"] if quick else ["gauss1", "gauss2", "gauss3", "poisson", "product"]):
+    if quick:       # a step size beyond sqrt(2) (the drift of IWLS is then more than a full Newton step)
+        js.append(dict(kernel="iwls", family="poisson", step=1.8, seed=len(js)))
+        js.append(dict(kernel="iwls", family="product_rev", step=1.6, seed=len(js)))
+    for f in (["gauss2", "poisson"] if quick else ["gauss1", "gauss2", "gauss3", "poisson", "product", "product_rev"]):
         for s in steps:
             js.append(dict(kernel="rw", family=f, step=s, seed=len(js)))
     for s in steps:
